@@ -319,6 +319,8 @@ def huge_cases(scheme, tier, seed):
         sizes.append(131073 if tier == "quick" else 262145)
     for big in sizes:
         cfg = S.default_config(scheme)
+        if isinstance(S.DESCS[scheme], S.Pi2Lev) and big >= S.DESCS[scheme].limit(cfg):
+            big = S.DESCS[scheme].limit(cfg) - 1   # the two-level scheme has a per-keyword capacity (B*B'*b'); stay just inside it
         if scheme == "CGKO06.SSE1":
             cfg.update(param_s=1 << (big + 4).bit_length(), param_dictionary_size=8)
         desc = S.DESCS[scheme]
